@@ -298,7 +298,7 @@ Proof. intros g. apply (l_ret _ _ (once_inv sched ncalls)). Qed.
 (* after a throw the flag is handed back: the thrower stores the value the CAS expects, the
    status is `running` only while a runner is between its CAS and its store (so it is never
    left at `running`), and a caller whose CAS finds the initial value becomes the next runner *)
-Lemma once_retry_after_throw_partial sched ncalls :
+Lemma once_handback_after_throw sched ncalls :
   let c := o_run sched ncalls in
   once_after_throw = once_cas_expected /\
   (status (fst c) = once_running ->
